@@ -127,8 +127,33 @@ def extra_run0(man, tier, seed):
             failures.append({'site': site, 'case': il, 'spec_case': sl, 'impl': a, 'expected': b, 'detail': detail,
                              'observed': 'nan' if 'nan' in detail.split(' vs ')[0] or a == 'xNaN' else ('panic' if a == 'PANIC' else 'value'),
                              'args': vals})
+    # log_product against the exactly rounded sum of logs (python fsum): running products that overflow, underflow or pass
+    # through the subnormal range must be flushed into the log accumulator without loss
+    lp_lines, lp_want = [], []
+    for _ in range(n // 4 + 20):
+        k = rng.choice([1, 2, 3, 5, 9, 40, 200])
+        mode = rng.random()
+        if mode < 0.3:
+            xs = [math.exp(rng.uniform(-5, 5)) for _ in range(k)]
+        elif mode < 0.6:
+            xs = [10.0 ** rng.choice([-160, -155, -100, -300, -12, 3, 150]) * rng.uniform(1, 10) for _ in range(k)]
+        elif mode < 0.8:
+            xs = [10.0 ** rng.uniform(-170, -140) for _ in range(k)]
+        else:
+            xs = [2.0 ** rng.randint(-1074, 1023) for _ in range(k)]
+        lp_lines.append(f'log_product - {enc(xs)}')
+        lp_want.append((math.fsum(math.log(x) for x in xs), sum(abs(math.log(x)) for x in xs)))
+    lp_impl, _ = run_pair(lp_lines, want_model=False)
+    for l, a, (w, mag) in zip(lp_lines, lp_impl, lp_want):
+        if a == 'NOOP':
+            break
+        v = tok_to_float(a) if a.startswith('x') else float('nan')
+        if not (abs(v - w) <= 1e-13 * mag + 4e-15 * abs(w)):
+            failures.append({'site': 'log_product', 'case': l, 'impl': a, 'expected': repr(w), 'detail': f'{v!r} vs sum of logs {w!r}',
+                             'observed': 'panic' if a == 'PANIC' else ('nan' if v != v else 'value'), 'args': []})
     return {'obligations': [], 'failures': failures,
-            'stats': {'evaluations': len(impl_lines), 'distinct_nontrivial': len(set(impl_lines))}, 'samples': impl_lines[40:43]}
+            'stats': {'evaluations': len(impl_lines) + len(lp_lines), 'distinct_nontrivial': len(set(impl_lines)) + len(set(lp_lines))},
+            'samples': impl_lines[40:43]}
 
 
 def _near_zero(f):
@@ -148,7 +173,8 @@ INPUT_CLASSES = {
     # Uniform::new(0,1) maps words < 2^12 to the variate 0; bisection (more than 9 weights) then returns index 0
     'variate_zero_leading_zero_weight': lambda f: f.get('weights_n', 0) > 9 and any(w < 4096 for w in _words(f)),
     'gumbel_degenerate': lambda f: f.get('n_zero', 0) >= 1 or any(w < 2048 for w in _words(f)),
-    'open01_top': lambda f: any(w >= (1 << 64) - (1 << 13) for w in _words(f)),
+    # the rounded running total of n terms can fall short of 1 by up to ~n ulps (2^-53 each = 2^11 generator words)
+    'open01_top': lambda f: any(w >= (1 << 64) - max(2, int(f.get('weights_n', 2))) * (1 << 12) for w in _words(f)),
     'both_ninf': lambda f: len(f.get('args', [])) == 2 and all(x == NINF for x in f['args']),
     'pinf_arg': lambda f: any(x == float('inf') for x in f.get('args', [])),
 }
